@@ -42,6 +42,9 @@ def main():
             return 1
         print('not reproduced on the current tree')
         return 0
+    from vf import symx
+    budget = float(os.environ.get('VERIF_CHECK_BUDGET_S', '2400' if args.tier == 'quick' else '28800'))
+    symx.DEADLINE = __import__('time').time() + budget
     try:
         chk.run()
     except (KeyboardInterrupt, SystemExit):
